@@ -1508,3 +1508,70 @@ package sdf
 //@   use sawtooth_periodic(p.Z + s.lead*math.Atan2(p.Y, p.X)/Tau, s.pitch, 1)
 //@   ensures [thread-term-periodic-in-z] s.Evaluate(v3.Vec{p.X, p.Y, p.Z + s.pitch}) <= 0 <==> s.Evaluate(p) <= 0
 //@ end
+
+//-----------------------------------------------------------------------------
+// C16: the 2D union's box-pruned Evaluate against evaluating every operand.
+// Operand assumptions (what "an operand with its surface in its box" means):
+//   l2: outside its box an operand is non-negative and at least as far as the box
+//   up: an operand is non-positive or no farther than the farthest box corner
+// BOUNDED: proved for unions of exactly 2 and exactly 3 operands (loops unroll
+// on the concrete operand count); the statement for arbitrary operand counts
+// needs the loop-invariant form and is not claimed.
+
+//@ spec l2(s SDF2, q v2.Vec) = !s.BoundingBox().Contains(q) ==> s.Evaluate(q) >= 0 && sq(s.Evaluate(q)) >= s.BoundingBox().MinMaxDist2(q)[0]
+//@ spec up(s SDF2, q v2.Vec) = s.Evaluate(q) <= 0 || sq(s.Evaluate(q)) <= s.BoundingBox().MinMaxDist2(q)[1]
+
+//@ lemma union2d_pruned_equals_exhaustive_2(a SDF2, b SDF2, p v2.Vec)
+//@   property C16
+//@   requires ord2(a.BoundingBox()) && ord2(b.BoundingBox())
+//@   requires forall q v2.Vec :: l2(a, q) && up(a, q)
+//@   requires forall q v2.Vec :: l2(b, q) && up(b, q)
+//@   let u = Union2D(a, b)
+//@   let va = merged(a.BoundingBox().MinMaxDist2(p))
+//@   let vb = merged(b.BoundingBox().MinMaxDist2(p))
+//@   assert [a-min-zero-inside-box] a.BoundingBox().Contains(p) ==> va[0] == 0
+//@   assert [a-interval-ordered] 0 <= va[0] && va[0] <= va[1]
+//@   assert [b-min-zero-inside-box] b.BoundingBox().Contains(p) ==> vb[0] == 0
+//@   assert [b-interval-ordered] 0 <= vb[0] && vb[0] <= vb[1]
+//@   generalize va
+//@   generalize vb
+//@   let fast = u.Evaluate(p)
+//@   ensures [pruned-is-the-minimum] fast == min(a.Evaluate(p), b.Evaluate(p))
+//@   ensures [exhaustive-is-the-minimum] u.EvaluateSlow(p) == min(a.Evaluate(p), b.Evaluate(p))
+//@ end
+
+//@ lemma union2d_pruned_equals_exhaustive_3(a SDF2, b SDF2, c SDF2, p v2.Vec)
+//@   property C16
+//@   requires ord2(a.BoundingBox()) && ord2(b.BoundingBox()) && ord2(c.BoundingBox())
+//@   requires forall q v2.Vec :: l2(a, q) && up(a, q)
+//@   requires forall q v2.Vec :: l2(b, q) && up(b, q)
+//@   requires forall q v2.Vec :: l2(c, q) && up(c, q)
+//@   let u = Union2D(a, b, c)
+//@   let va = merged(a.BoundingBox().MinMaxDist2(p))
+//@   let vb = merged(b.BoundingBox().MinMaxDist2(p))
+//@   let vc = merged(c.BoundingBox().MinMaxDist2(p))
+//@   assert [a-min-zero-inside-box] a.BoundingBox().Contains(p) ==> va[0] == 0
+//@   assert [a-interval-ordered] 0 <= va[0] && va[0] <= va[1]
+//@   assert [b-min-zero-inside-box] b.BoundingBox().Contains(p) ==> vb[0] == 0
+//@   assert [b-interval-ordered] 0 <= vb[0] && vb[0] <= vb[1]
+//@   assert [c-min-zero-inside-box] c.BoundingBox().Contains(p) ==> vc[0] == 0
+//@   assert [c-interval-ordered] 0 <= vc[0] && vc[0] <= vc[1]
+//@   generalize va
+//@   generalize vb
+//@   generalize vc
+//@   let fast = u.Evaluate(p)
+//@   ensures [pruned-is-the-minimum] fast == min(a.Evaluate(p), b.Evaluate(p), c.Evaluate(p))
+//@   ensures [exhaustive-is-the-minimum] u.EvaluateSlow(p) == min(a.Evaluate(p), b.Evaluate(p), c.Evaluate(p))
+//@ end
+
+//@ lemma union2d_blend_same_inside_outside_2(a SDF2, b SDF2, k real, p v2.Vec)
+//@   property C16
+//@   requires k > 0
+//@   requires ord2(a.BoundingBox()) && ord2(b.BoundingBox())
+//@   requires forall q v2.Vec :: l2(a, q) && up(a, q)
+//@   requires forall q v2.Vec :: l2(b, q) && up(b, q)
+//@   let u = Union2D(a, b)
+//@   do u.SetMin(PolyMin(k))
+//@   let fast = u.Evaluate(p)
+//@   ensures [same-inside-outside-with-a-blend] fast < 0 <==> u.EvaluateSlow(p) < 0
+//@ end
